@@ -135,3 +135,15 @@ Fixpoint late_frames (k : kind) (skip : Z) (frames : list frame) : list frame :=
   | [] => []
   | f :: t => if skip <=? 0 then frames else late_frames k (skip - Z.of_nat (length (spec_adu k f))) t
   end.
+
+(* ---- valid frames (hypotheses of the theorems) ------------------------------------------- *)
+Definition tcp_wf (f : frame) : Prop :=
+  0 <= f_tid f < 65536 /\ 0 <= f_pid f < 65536 /\ 0 <= f_uid f < 256 /\
+  (1 <= length (f_pdu f))%nat /\ Z.of_nat (length (f_pdu f)) + 1 < 65536.
+Definition ascii_wf (f : frame) : Prop :=
+  0 <= f_uid f < 256 /\ wfb (f_pdu f) = true /\ (1 <= length (f_pdu f))%nat.
+Definition frame_wf (k : kind) (f : frame) : Prop :=
+  match k with KTcp => tcp_wf f | KAscii => ascii_wf f | KTls => (1 <= length (f_pdu f))%nat end.
+(* well-formed, decodable by the decoder in use, addressed to an accepted unit *)
+Definition valid_frame (k : kind) (dec : bytes -> dres) (c : cfg) (f : frame) : Prop :=
+  frame_wf k f /\ is_msg (dec (f_pdu f)) = true /\ spec_accepts k c (f_uid f) = true.
